@@ -369,6 +369,9 @@ func (fx *FuncCtx) frameEnv(st *State, f *Frame) *SpecEnv {
 	if len(st.stack) == 1 || f.ct == fx.ct {
 		return fx.specEnv(st, nil)
 	}
+	if f.ct == nil {
+		return &SpecEnv{fx: fx, st: st, old: fx.entry, vars: map[string]Value{}, info: fx.ct.Info, ct: fx.ct}
+	}
 	// inlined frame: parameters of the inlined function
 	env := &SpecEnv{fx: fx, st: st, old: f.entry, vars: map[string]Value{}, info: f.ct.Info, ct: f.ct}
 	if env.old == nil {
@@ -474,8 +477,7 @@ func (fx *FuncCtx) bindLocals(env *SpecEnv, st *State, f *Frame) {
 			if env.addrs == nil {
 				env.addrs = map[string]PtrVal{}
 			}
-			env.addrs[name] = lp.P
-			env.vars[name] = st.Load(lp.P, nil)
+			env.addrs[name] = lp.P // read through the state in force (current or old) when evaluated
 		} else {
 			env.vars[name] = v
 		}
